@@ -9,14 +9,14 @@ from ..gen import histories as H, sqlite_factory as F
 from ..impl import dump as D
 from ..impl.canon import guarded, hx
 from ..leanio import driver
-from ..translate import pyfun
+from ..translate import hdrdiff, pyfun
 from . import dbcommon as C, walindex as W
 
 ID = "C17"
 LEAN_MODULES = ["SqliteDissect.Properties.C17", "SqliteDissect.Properties.C17Step", "SqliteDissect.Properties.C17WalIndex",
-                "SqliteDissect.Properties.GenHeader", "SqliteDissect.Properties.GenPage"]
-TRANSLATORS = [pyfun]
-TRUSTED_EXTRA = [pyfun.TRUSTED]
+                "SqliteDissect.Properties.GenHeader", "SqliteDissect.Properties.GenPage", "SqliteDissect.Properties.GenHdrDiff"]
+TRANSLATORS = [pyfun, hdrdiff]
+TRUSTED_EXTRA = [pyfun.TRUSTED, hdrdiff.TRUSTED]
 RULE = ("100-byte strings obtained from valid headers (one per factory database) by perturbing every field with "
         "boundary and random values, every value of the one- and two-byte fields (all 65536 page sizes), all pairs for the interacting fields; WAL / frame / journal headers likewise; "
         "WAL histories in which PRAGMA-settable fields change, each version's header compared with the pragma values "
